@@ -22,7 +22,7 @@ type langRules interface {
 	// a builtin of the language at all; unmodelled that it is valid but not
 	// modelled (=> UnsupportedError); needs describes the version that has it.
 	builtinFuncs(name string) (sigs []*builtinSig, known, unmodelled bool, needs string)
-	builtinVar(c *checker, name string) *Symbol
+	builtinVar(c *checker, pos Pos, name string) *Symbol
 	// userMayRedeclareBuiltin: false in ESSL.
 	userMayRedeclareBuiltin() bool
 	returnConverts() bool
@@ -345,7 +345,7 @@ func (c *checker) expr(e Expr) Expr {
 func (c *checker) ident(x *Ident) Expr {
 	s := c.lookup(x.Name)
 	if s == nil {
-		s = c.rules.builtinVar(c, x.Name)
+		s = c.rules.builtinVar(c, x.Pos, x.Name)
 	}
 	if s == nil {
 		if _, known, _, _ := c.rules.builtinFuncs(x.Name); known {
